@@ -641,8 +641,7 @@ func sideDoors(c *Ctx, rule string) {
 	}
 	rawSites := []site{
 		{[]string{"xmlUnmarshalElement"}, nil, "generic helper: target classified at its call sites"},
-		{[]string{"DecodeUnverifiedBaseResponse"}, map[string]bool{"*types.UnverifiedBaseResponse": true}, "pre-decode (C20)"},
-		{[]string{"DecodeUnverifiedLogoutResponse"}, map[string]bool{"*types.LogoutResponse": true}, "pre-decode (C20)"},
+		{[]string{"DecodeUnverifiedBaseResponse", "DecodeUnverifiedLogoutResponse"}, nil, "pre-decode: documented as unverified; its target types are checked on the kernel paths by C20"},
 		{[]string{"(*types.EncryptedAssertion).Decrypt"}, map[string]bool{"*types.Assertion": true}, "exported decrypt helper: caller-side trust (documented), not used by the validators"},
 	}
 	targetType := func(s callSite) string {
